@@ -2,6 +2,7 @@
 Deciding monitors: recording contracts on the real python_bytes_to_unicode and split_lines."""
 import io
 import itertools
+import os
 import random
 import tokenize as pytokenize
 
@@ -129,8 +130,10 @@ COOKIES = [b'# -*- coding: utf-8 -*-', b'# coding: latin-1', b'# coding=cp1252',
            b'    # coding: cp437', b'\x0c# coding: koi8-r', b'#\tcoding=\tlatin-1', b'# -*- coding: euc-jp -*-', b'def f(): pass',
            b'# coding: big5', b'# coding : latin-1', b'# Coding: latin-1', b'# encoding: latin-1', b'#coding=utf-8-sig', b'pass',
            b'# coding: cp1252 extra', b'# coding: latin-1 # coding: utf-8', b'x = "\xe9"', b'# \xe9 coding: latin-1', b'\\', b'#',
-           b'# coding: mbcs', b'# coding: punycode', b'# coding: rot13', b'# coding: utf-7']
-PAYLOADS = [b'', b'x = 1\r# vim: set fileencoding=latin-1 :\rs = "\xc3\xa9"\r', b'# encoding=cp1252\r\xc3\xa9 = 1\r', b'x = 1\n', b's = "\xe9"\n', b'\xc3\xa9 = 1\n', b's = "\xff\xfe"\n', b'# \x80\x81\n', b'x = "\xa4"\n', b'\n\n', b'coding: latin-1\n']
+           b'# coding: mbcs', b'# coding: punycode', b'# coding: rot13', b'# coding: utf-7', b'# coding: shift_jis_2004', b'# coding: unicode_escape',
+           b'# coding: iso2022_jp_ext', b'# coding: iso-2022-jp-2004', b'# coding: Shift_JISX0213', b'# coding: raw_unicode_escape', b'# coding: mac_cyrillic',
+           b'# coding: iso8859_15', b'# coding: windows-1252', b'# coding: ISO_8859-1:1987', b'# coding: utf_8_sig', b'# coding: euc_jis_2004', b'# coding: cp65001']
+PAYLOADS = [b'', b's = "\\u00e9 \\x41"\n', b'x = "+AOk-"\n', b's = "\x1b$B$"(B"\n', b's = "\x82\xa0"\n', b'x = 1\r# vim: set fileencoding=latin-1 :\rs = "\xc3\xa9"\r', b'# encoding=cp1252\r\xc3\xa9 = 1\r', b'x = 1\n', b's = "\xe9"\n', b'\xc3\xa9 = 1\n', b's = "\xff\xfe"\n', b'# \x80\x81\n', b'x = "\xa4"\n', b'\n\n', b'coding: latin-1\n']
 
 
 def gen_bytes(rng):
@@ -171,6 +174,27 @@ def run_shard(spec, ctx):
                 ctx.nontriv(b)
             if i < 3:
                 ctx.sample({'bytes': b[:80]})
+            if i % 25 == 0:
+                # and read from a file by path (FileIO): must be decoded like the bytes themselves
+                try:
+                    st, exp = _ref_decode(b)
+                    if st == 'ok':
+                        import tempfile
+                        with tempfile.NamedTemporaryFile(prefix='vmon15-', suffix='.py', delete=False) as tf:
+                            tf.write(b)
+                        try:
+                            m = parso.parse(path=tf.name)
+                            ctx.count('files_read_by_path')
+                            if m.get_code() != exp:
+                                ctx.violation('parse_path_code', 'parse(path=file).get_code() is not the text CPython decodes from the file', {'bytes': b},
+                                              via='path', **_cookie_facts(b))
+                        finally:
+                            os.unlink(tf.name)
+                except Exception as e:
+                    if _ref_decode(b)[0] == 'ok':
+                        info = harness.exc_info(e)
+                        ctx.violation('decode_raised', 'CPython decodes the file but parse(path=file) raised %s: %s' % (info['type'], info['text'][:80]),
+                                      {'bytes': b}, exc=info, via='path', **_cookie_facts(b))
             if i % 50 == 0:
                 # through the public parse(): decoded text == get_code()
                 try:
@@ -266,7 +290,7 @@ def shards(tier, seed):
 
 def floors(tier):
     return {'evaluations': 100000, 'decodings_judged': 20000, 'contract_evals:split_lines': 200000, 'exhaustive_strings_length_4': 19 ** 4,
-            'corpus_files_as_bytes': 200, 'tree_line_count_checks': 1000}
+            'corpus_files_as_bytes': 200, 'tree_line_count_checks': 1000, 'files_read_by_path': 500}
 
 
 def extra_coverage(m, tier):
